@@ -89,12 +89,13 @@ def _to_triplets(
 
 
 def _to_len_bucket(seqs):
+    # positions (in input order) of the sequences of each length
     ans = {}
-    for seq in seqs:
+    for index, seq in enumerate(seqs):
         _len = len(seq)
         if _len not in ans:
             ans[_len] = []
-        ans[_len].append(seq)
+        ans[_len].append(index)
     return ans
 
 
@@ -151,10 +152,11 @@ def kdtree(
     )
 
     if custom_distance == "hamming":
-        buckets, ans = _to_len_bucket(seqs), []
-        for bucket in buckets.values():
-            ans += _kdtree_leven(
-                bucket,
+        seqs_arr = ensure_numpy(seqs)
+        buckets, ans = _to_len_bucket(seqs_arr), []
+        for positions in buckets.values():
+            bucket_triplets = _kdtree_leven(
+                seqs_arr[positions],
                 max_edits,
                 max_returns,
                 n_cpu,
@@ -163,6 +165,8 @@ def kdtree(
                 "triplets",
                 compression,
             )
+            # bucket-local positions -> positions in the original input
+            ans += [(positions[i], positions[j], dist) for i, j, dist in bucket_triplets]
         return _make_output(ans, output_type, seqs)
     return _kdtree_leven(
         seqs,
